@@ -25,8 +25,8 @@ theorem guards_tie_in_generations (g : Graph) :
 /-- the statements of `in_generations` that are not updates: the deep copy (see `fact_in_generations_copies_first`),
 the assertion that a generation time is present (always, in a resolved graph) and the return -/
 theorem guards_in_generations_other : Generated.inGenerationsOther =
-    [("graph = copy.deepcopy(self)", [], 0), ("assert graph.generation_time is not None", [], 0),
-     ("return graph", [], 8)] := by decide +kernel
+    [("v0 = copy.deepcopy(self)", [], 0), ("assert v0.generation_time is not None", [], 0),
+     ("return v0", [], 8)] := by decide +kernel
 
 /-! ### the interpreter distinguishes tables (closed instances on `exGraphM` with a generation time of 2) -/
 
